@@ -24,7 +24,7 @@ func verifQueryLeafN(k int) contactql.QueryNode {
 	case 2:
 		return contactql.NewCondition(contactql.PropertyTypeAttribute, contactql.AttributeLanguage, contactql.OpEqual, "fra")
 	case 3:
-		return contactql.NewCondition(contactql.PropertyTypeField, "nick", contactql.OpNotEqual, "")
+		return contactql.NewCondition(contactql.PropertyTypeField, verifTextKey, contactql.OpNotEqual, "")
 	case 4:
 		return contactql.NewCondition(contactql.PropertyTypeField, "age", contactql.OpGreaterThanOrEqual, "7")
 	case 5:
@@ -114,7 +114,7 @@ func VerifC06_Modifiers() {
 	case 1:
 		mod = NewLanguage(verifSymLang("new-language"))
 	case 2:
-		mod = NewField(sa.fields.Get("nick"), []string{"", "x"}[zzverif.Choice("new-nick", 2)])
+		mod = NewField(sa.fields.Get(verifTextKey), []string{"", "x"}[zzverif.Choice("new-nick", 2)])
 	case 3:
 		mod = NewField(sa.fields.Get("age"), []string{"", "3", "9"}[zzverif.Choice("new-age", 3)])
 	case 4:
